@@ -97,6 +97,10 @@ def constants():
     tw = _src(taproot._tap_tweak)
     if "if t >= secp256k1.n:" not in tw or "int.from_bytes(tagged_hash(b'TapTweak', pub_key + h), 'big')" not in tw.replace('"', "'"):
         raise ValueError("taproot: _tap_tweak of unexpected shape")
+    lh = _src(taproot.leaf_hash)
+    mv = re.search(r"if not 0 <= leaf_version <= (\d+):\n\s+raise BTClibValueError", lh)
+    if not mv or "leaf_version.to_bytes(1, 'big') + var_bytes.serialize(script)" not in lh.replace('"', "'"):
+        raise ValueError("taproot: leaf_hash version range guard / preimage of unexpected shape")
     out = "/-- BIP341 tags, as passed to `tagged_hash` by leaf_hash / tree_helper+check_output_pubkey / _tap_tweak -/\n"
     out += f"def TAG_LEAF : Btc.Bytes := {_blit(leaf[0])}\n"
     out += f"def TAG_BRANCH : Btc.Bytes := {_blit(branch[0])}\n"
@@ -105,6 +109,7 @@ def constants():
     out += f"/-- control block = {head} bytes (first byte, x-only internal key) + {node} per merkle node -/\n"
     out += f"def CONTROL_HEAD : Nat := {head}\ndef NODE_SIZE : Nat := {node}\n"
     out += f"def LEAF_MASK : Nat := {mask_c}\ndef PARITY_MASK : Nat := {int(par[0])}\n"
+    out += f"/-- `leaf_hash` refuses a version outside `0..LEAF_VERSION_MAX` -/\ndef LEAF_VERSION_MAX : Int := {int(mv.group(1))}\n"
     out += f"def NUMS_PREFIX : UInt8 := {int(mp.group(1), 16)}\n"
     out += f"def NUMS_X : Btc.Bytes := {_blit(bytes.fromhex(mm.group(1)))}\n"
     return out
